@@ -77,13 +77,10 @@ Definition spec_cmd (c : ccmd) (arg : option aval) : option (list wclass * nat *
   match c, arg with
   | CEnd, _ => Some ([], O, FEnd)
   | CWait, Some a =>
-    if float_ok (akind a) then
-      match a with
-      | Exact Rfm2h | Exact Rim1 | Exact Rimin => None
-      | Exact _ => Some ([], O, FSuspend)
-      | OfKind _ => None
-      end
-    else Some ([WCast], O, FNext)
+    match wait_flow a with
+    | None => None
+    | Some (ws, f) => Some (ws, O, f)
+    end
   | CGoto, Some a =>
     match label_of false a with
     | Some (LbErr w) => Some ([w], O, FNext)
@@ -97,7 +94,7 @@ Definition spec_cmd (c : ccmd) (arg : option aval) : option (list wclass * nat *
   | _, None => None
   end.
 
-Definition spec_stmt (dbg : bool) (s : stmt) : option sobs :=
+Definition spec_stmt0 (dbg : bool) (s : stmt) : option sobs :=
   match s with
   | SPrint e => bind (eval dbg e) (fun '(_, w) => Some (mkObs w 1 FNext))
   | SAssign e => bind (eval dbg e) (fun '(_, w) => Some (mkObs w 0 FNext))
@@ -120,6 +117,10 @@ Definition spec_stmt (dbg : bool) (s : stmt) : option sobs :=
     bind (eval_opt dbg arg) (fun '(va, wa) =>
     bind (spec_cmd c va) (fun '(w, n, f) => Some (mkObs (wa ++ w) n f)))
   end.
+
+(* no prediction for a statement that uses the pending thread result twice (see Model.ptr_twice) *)
+Definition spec_stmt (dbg : bool) (s : stmt) : option sobs :=
+  if ptr_twice s then None else spec_stmt0 dbg s.
 
 Fixpoint spec_from (dbg : bool) (alive known : bool) (p : list stmt) : list tobs :=
   match p with
